@@ -1098,16 +1098,10 @@ func (ctx *RenderContext) evaluateNode(node Node) (interface{}, error) {
 				}
 			}
 
-			// Fallback - try calling it like a regular function
-			if IsDebugEnabled() && debugger.level >= DebugVerbose {
-				LogVerbose("Fallback - calling '%s' as a regular function", n.name)
-			}
-			result, err := ctx.CallFunction(n.name, args)
-			if err != nil {
-				return nil, err
-			}
-
-			return result, nil
+			// No macro of that name where the call says it is: that is an
+			// unresolved name (a function that happens to have the name is not
+			// what x.name() asks for)
+			return nil, fmt.Errorf("macro '%s' not found", n.name)
 		}
 
 		// Check if it's a macro call
